@@ -346,32 +346,32 @@ def plan(ctx):
     RT = lambda mode: Replay(driver='C09/datastring.cc', mode=mode, sources=ALL_LIB)
     for mn, d in (('mask', []), ('nomask', ['MASK_NULL'])):
         groups.append(Group(name='parse_data_string.totality[%s]' % mn, harness='harness/C09/parse.c', entry='h_parse', function='parse_data_string',
-                            enforce='parse_data_string', replace=['pds_step'], loops=True, kind='loop-contract', defines=d + ['C09_TAIL_MODEL', 'STEP_AT_CALL_SITE'], timeout=300,
+                            enforce='parse_data_string', replace=['pds_step'], loops=True, kind='loop-contract', defines=d + ['C09_TAIL_MODEL', 'STEP_AT_CALL_SITE'], timeout=600,
                             engines=['minisat', 'cadical'], replay=RT('parse_total')))
     for mn, d in (('mask', []), ('nomask', ['MASK_NULL'])):
         groups.append(Group(name='parse_data_string.step[%s]' % mn, harness='harness/C09/step.c', entry='h_step', function='parse_data_string (loop body)',
-                            enforce='pds_step', defines=d + ['C09_TAIL_MODEL'], timeout=300, engines=['minisat', 'cadical'], min_post=10,
+                            enforce='pds_step', defines=d + ['C09_TAIL_MODEL'], timeout=600, engines=['minisat', 'cadical'], min_post=10,
                             replay=RT('step')))
     for mn, d in (('mask', []), ('nomask', ['MASK_NULL'])):
         groups.append(Group(name='format_data_string.classification[%s]' % mn, harness='harness/C09/format.c', entry='h_format',
                             function='format_data_string', enforce='format_data_string', loops=True, kind='loop-contract', defines=d + ['C09_TAIL_MODEL'], first='cadical',
-                            timeout=300, min_post=5, replay=RT('classify')))
+                            timeout=600, min_post=5, replay=RT('classify')))
     for mn, d in (('mask', []), ('nomask', ['MASK_NULL'])):
         groups.append(Group(name='format_data_string.string_overload[%s]' % mn, harness='harness/C09/wrapper.c', entry='h_wrapper',
                             function='format_data_string(const std::string&, const std::string*, uint64_t)', enforce='format_data_string_str',
                             defines=d, min_post=3, replay=RT('overload')))
     HD = Replay(driver='C09/datastring.cc', mode='hexdump', sources=ALL_LIB, small_define='VERIF_SMALL')
     groups.append(Group(name='format_data.line_loop', harness='harness/C09/lines.c', entry='h_line_loop', function='format_data (line loop header)',
-                        enforce='fd_line_loop', loops=True, kind='loop-contract', timeout=300, min_post=2, replay=HD))
+                        enforce='fd_line_loop', loops=True, kind='loop-contract', timeout=600, min_post=2, replay=HD))
     groups.append(Group(name='format_data.line_geometry', harness='harness/C09/lines.c', entry='h_line', function='format_data (geometry statements of a line)',
-                        enforce='fd_line', timeout=300, min_post=8, replay=HD))
+                        enforce='fd_line', timeout=600, min_post=8, replay=HD))
     SIM = 'harness/C09/sim.c'
     for entry, name, fn, mode in [('l_sim_quoted', 'roundtrip.step[quoted]', 'format_data_string quoted-form loop body / parse_data_string loop body', 'sim_quoted'),
                                   ('l_sim_hex', 'roundtrip.step[hex]', 'format_data_string hex-form loop body / parse_data_string loop body', 'sim_hex'),
                                   ('l_quote_brackets', 'roundtrip.quote_brackets', 'parse_data_string loop body', 'brackets'),
                                   ('l_initial_state', 'parse_data_string.initial_state', 'parse_data_string (declarations in front of the loop)', 'initial'),
                                   ('l_wide_char', 'parse_data_string.wide_char', 'parse_data_string loop body', 'wide_char')]:
-        groups.append(Group(name=name, harness=SIM, entry=entry, function=fn, kind='lemma', min_post=3, timeout=300,
+        groups.append(Group(name=name, harness=SIM, entry=entry, function=fn, kind='lemma', min_post=3, timeout=600,
                             cbmc_flags=['--unwind', '6', '--unwinding-assertions'], replay=RT(mode)))
     # thorough: the host-dependent parts again under a big-endian host model (the bytes a construct appends must not depend on the host)
     import copy
@@ -386,6 +386,6 @@ def plan(ctx):
         groups.append(Group(name='roundtrip.bounded[len<=%d]' % n, harness='harness/C09/roundtrip.c', entry='b_roundtrip',
                             function='format_data_string / parse_data_string', kind='bounded', tier=tier, defines=['RT_N=%d' % n],
                             bound='all byte strings of length <= %d, all masks (or none), flags 0 and HEX_ONLY; text <= %d characters' % (n, 2 + 5 * n),
-                            cbmc_flags=['--unwind', str(unwind), '--unwinding-assertions'], timeout=600 if n == 3 else 3600, min_post=4,
+                            cbmc_flags=['--unwind', str(unwind), '--unwinding-assertions'], timeout=900 if n == 3 else 3600, min_post=4,
                             replay=RT('roundtrip')))
     return groups
